@@ -6,7 +6,6 @@ import (
 	"log/slog"
 	"regexp"
 	"slices"
-	"sort"
 	"strings"
 
 	"github.com/prometheus/common/model"
@@ -346,10 +345,13 @@ func matchEntries(before, after []Entry) (ml []matchedEntry) {
 }
 
 func isEntryIdentical(b, a Entry) bool {
-	if !slices.Equal(sort.StringSlice(b.DisabledChecks), sort.StringSlice(a.DisabledChecks)) {
+	// sort.StringSlice() is only a type conversion, compare sorted copies.
+	before := slices.Sorted(slices.Values(b.DisabledChecks))
+	after := slices.Sorted(slices.Values(a.DisabledChecks))
+	if !slices.Equal(before, after) {
 		slog.Debug("List of disabled checks was modified",
-			slog.Any("before", sort.StringSlice(b.DisabledChecks)),
-			slog.Any("after", sort.StringSlice(a.DisabledChecks)))
+			slog.Any("before", before),
+			slog.Any("after", after))
 		return false
 	}
 	return true
